@@ -45,6 +45,14 @@ theorem kill_separated_same (nm : Names) (sigterm : Int) (args : List Str) :
   unfold killParse
   rw [killLoop_separate nm args.length args _ (Nat.le_refl _)]
 
+/-- ★ The Spec function `separateSO` meets its description: in its output every cluster in option position
+    is a single letter (or contains its own sign as a letter), `-o` / `+o` is followed by the name as an
+    argument of its own, and (for `set`) no `--name` / `++name` is left — so `set_separated_same` and
+    `sh_separated_same` compare a vector with a really separated spelling. -/
+theorem separateSO_is_separated (long : Bool) (args : List Str) :
+    isSeparatedSO long (separateSO long args) = true :=
+  separateSO_isSeparated long args.length args (Nat.le_refl _)
+
 /-! ## non-vacuity -/
 
 /-- the answers of yash_env::option for `e`, `u`, `errexit`, `nounset`, `err` -/
@@ -99,5 +107,8 @@ example : killParse exSig false 15 ['-' :: 's' :: "INT".toList, ['1']] = .ok (.s
 example : killParse exSig false 15 [['-','s'], "INT".toList, ['1']] = .ok (.send 2 true [['1']]) := by rfl
 example : killParse exSig false 15 ['-' :: "stop".toList, ['1']] = .ok (.send 19 true [['1']]) := by rfl
 example : killParse exSig false 15 ['-' :: 's' :: "INT".toList, ['-','l']] = .error (.conflictingOptions 'l') := by rfl
+
+example : isSeparatedSO true [['-','e','u'], ['-','-','e','r','r']] = false := by decide
+example : isSeparatedSO true (separateSO true [['-','e','u','o','x'], ['-','-','e','r','r']]) = true := by decide
 
 end YashModel.Args.Bespoke
